@@ -240,7 +240,7 @@ def rule_unrecognisable_fragments(run, prog, rid="R-7.8"):
              "of the file), at file level, no primary -- interpreted in priority order the way Registry.run tries them -- reports a "
              "match that covers the fragment without a diagnostic (the registry then raises its fatal `Unrecognized line`)",
              floor=1)
-    garbage = ["42", "]", ")", '"abc"', "->", "+", "= 3", "42 ]", ";42", "; ]", "\t)", "))"]
+    garbage = ["42", "]", ")", '"abc"', "->", "+", "= 3", "42 ]", ";42", "; ]", "\t)", "))", "# /* c */ 42 ]", "#/* c */ ] x"]
     bad, n = None, 0
     try:
         for g in garbage:
